@@ -169,4 +169,110 @@ Proof.
       unfold some_exp. rewrite map_map. simpl. rewrite Forall_forall in Hkeys. apply (Hkeys d0 Hd0).
 Qed.
 
+
+(* ---- C07 at the facade: fit on a used bandit = fit on a freshly constructed one ------------ *)
+Definition mab_fresh (m : mab) : mab :=
+  match m_imp m with
+  | ICf s => mkMab (ICf (cf_fresh N s)) false (m_rng m)
+  | _ => m
+  end.
+
+Definition imp_rel (i i' : @imp R A G) : Prop :=
+  match i, i' with
+  | ICf s, ICf s' => match c_kind s with KThompson => eq_mod_exp s' s | _ => s = s' end
+  | _, _ => i = i'
+  end.
+
+Theorem fit_forgets_facade (m : mab) ds rs cx orc :
+  is_cf m -> mab_inv m ->
+  let r := step N aeqb RG m (Fit ds rs cx orc) in
+  let r' := step N aeqb RG (mab_fresh m) (Fit ds rs cx orc) in
+  snd r = snd r' /\
+  (snd r = ODone -> imp_rel (m_imp (fst r)) (m_imp (fst r')) /\ m_fitted (fst r) = m_fitted (fst r') /\ m_rng (fst r) = m_rng (fst r')
+                    /\ mab_cold_arms aeqb (fst r) = mab_cold_arms aeqb (fst r')).
+Proof.
+  intros [s Es] Hinv. unfold mab_inv in Hinv. rewrite Es in Hinv. destruct Hinv as [Hk Hc].
+  unfold mab_fresh. rewrite Es. unfold step.
+  assert (Ha : fit_args_ok N m ds rs cx = fit_args_ok N (mkMab (ICf (cf_fresh N s)) false (m_rng m)) ds rs cx).
+  { unfold fit_args_ok, ts_needs_binary, is_contextual. rewrite Es. simpl. reflexivity. }
+  rewrite <- Ha. destruct (fit_args_ok N m ds rs cx); [|simpl; split; [reflexivity | discriminate]].
+  unfold train_shape_ok, imp_fit. rewrite Es. simpl.
+  split; [reflexivity|]. intros _.
+  pose proof (cf_fit_forgets N aeqb s ds rs Hk Hc) as Hf.
+  assert (Ekf : c_kind (cf_fit N aeqb s ds rs) = c_kind s) by apply (cf_fit_cfg N aeqb s ds rs).
+  repeat split.
+  - unfold imp_rel. rewrite Ekf. destruct (c_kind s) eqn:Ek; try exact Hf.
+    unfold eq_mod_exp. split.
+    + rewrite Hf. reflexivity.
+    + pose proof (cf_fit_keys_ok N aeqb aeqb_spec (cf_fresh N s) ds rs (fresh_keys_ok N s Hk)) as (_ & He' & _).
+      pose proof (cf_fit_keys_ok N aeqb aeqb_spec s ds rs Hk) as (_ & He2 & _).
+      rewrite He', He2.
+      rewrite (proj2 (proj2 (proj2 (proj2 (cf_fit_cfg N aeqb (cf_fresh N s) ds rs))))).
+      rewrite (proj2 (proj2 (proj2 (proj2 (cf_fit_cfg N aeqb s ds rs))))). reflexivity.
+  - unfold mab_cold_arms; simpl. unfold cold_arms.
+    destruct (c_kind s) eqn:Ek; rewrite Hf; try reflexivity.
+Qed.
+
+(* ---- C09 for context-free bandits: predict is the arg-max of what predict_expectations returns ---- *)
+Definition out_argmax (o : out) : out :=
+  match o with
+  | OExp d => OArm (argmax_first N (flat_map (fun kv => match snd kv with Some v => [(fst kv, v)] | None => [] end) d))
+  | OExps l => OArms (map (fun d => argmax_first N (flat_map (fun kv => match snd kv with Some v => [(fst kv, v)] | None => [] end) d)) l)
+  | o' => o'
+  end.
+
+Lemma unsome_some_exp (d : list (A * R)) :
+  flat_map (fun kv => match snd kv with Some v => [(fst kv, v)] | None => [] end) (some_exp d) = d.
+Proof. unfold some_exp. induction d as [|[k v] t IH]; simpl; [reflexivity | rewrite IH; reflexivity]. Qed.
+
+Theorem predict_is_argmax_of_expectations (m : mab) cx orc :
+  is_cf m ->
+  snd (step N aeqb RG m (Predict cx orc)) = out_argmax (snd (step N aeqb RG m (PredictExp cx orc))) /\
+  fst (step N aeqb RG m (Predict cx orc)) = fst (step N aeqb RG m (PredictExp cx orc)).
+Proof.
+  intros [s Es]. unfold step.
+  destruct (negb (m_fitted m)); [simpl; auto|]. destruct (negb (predict_args_ok m cx)); [simpl; auto|].
+  unfold imp_query. rewrite Es. unfold cf_predict.
+  destruct (cf_predict_exp N aeqb RG s (m_rng m) (ctx_len cx)) as [[e s'] g']. simpl.
+  split; [|reflexivity].
+  unfold lefts, rights, shape_arms, shape_exps. rewrite !map_map. simpl.
+  destruct e as [|d [|d2 t]]; simpl; rewrite ?unsome_some_exp; try reflexivity.
+  do 3 f_equal. rewrite map_map. apply map_ext. intros x. rewrite unsome_some_exp. reflexivity.
+Qed.
+
+(* ---- C10 for context-free bandits: a query changes nothing but the generator (and, for Thompson
+        Sampling, the stored copy of the last sample, which no operation reads) -------------------- *)
+Theorem query_keeps_model (m : mab) (s : cf) cx orc (is_p : bool) :
+  rng_lengths_ok RG -> m_imp m = ICf s -> mab_inv m ->
+  let o := if is_p then Predict cx orc else PredictExp cx orc in
+  exists s', m_imp (fst (step N aeqb RG m o)) = ICf s' /\
+             (c_kind s <> KThompson -> s' = s) /\ s' = set_exp s (c_exp s') /\ akeys (c_exp s') = c_arms s /\
+             m_fitted (fst (step N aeqb RG m o)) = m_fitted m.
+Proof.
+  intros Hrng Es Hinv o. unfold mab_inv in Hinv. rewrite Es in Hinv. destruct Hinv as [Hk Hc].
+  assert (Hid : s = set_exp s (c_exp s)) by (destruct s; reflexivity).
+  pose proof Hk as (_ & He & _).
+  assert (Hsame : exists s', @ICf R A G s = ICf s' /\ (c_kind s <> KThompson -> s' = s) /\ s' = set_exp s (c_exp s') /\ akeys (c_exp s') = c_arms s /\ m_fitted m = m_fitted m)
+    by (exists s; repeat split; auto).
+  assert (Hmain : forall g mm, let '(_, s', _) := cf_predict_exp N aeqb RG s g mm in
+            (c_kind s <> KThompson -> s' = s) /\ s' = set_exp s (c_exp s') /\ akeys (c_exp s') = c_arms s).
+  { intros g mm. pose proof (cf_predict_exp_ok N aeqb RG s g mm Hrng Hk) as Hok.
+    unfold cf_predict_exp in *. destruct (c_kind s) eqn:Ek;
+      repeat match goal with
+             | |- context [draw_r RG ?g ?r] => destruct (draw_r RG g r)
+             | |- context [draw_scalars N RG ?g ?n] => destruct (draw_scalars N RG g n)
+             | |- context [draw_betas N aeqb RG ?g ?a ?b ?c] => destruct (draw_betas N aeqb RG g a b c)
+             | |- context [if ?b then _ else _] => destruct b
+             end; try (repeat split; auto; fail).
+    destruct Hok as (_ & _ & (_ & He' & _) & _). simpl in *.
+    split; [intros H; congruence|]. split; [reflexivity | exact He']. }
+  subst o. destruct is_p; unfold step;
+    (destruct (negb (m_fitted m)); [simpl; rewrite Es; exact Hsame|]);
+    (destruct (negb (predict_args_ok m cx)); [simpl; rewrite Es; exact Hsame|]);
+    unfold imp_query; rewrite Es; unfold cf_predict;
+    specialize (Hmain (m_rng m) (ctx_len cx));
+    destruct (cf_predict_exp N aeqb RG s (m_rng m) (ctx_len cx)) as [[e s'] g']; simpl;
+    exists s'; destruct Hmain as (H1 & H2 & H3); repeat split; auto.
+Qed.
+
 End FacadeCF.
